@@ -273,12 +273,12 @@ impl CaseKind for FwdCase {
                         let mags: Vec<f64> = if self.force_exact == Some(true) { vec![0.0; t.numel()] } else { t.mags() };
                         match diff_array_forward(&a, &t.dims, &t.values(), &mags, exact) {
                             None => {
-                                // add, subtract, multiply and divide are ONE correctly rounded scalar operation per
+                                // add, subtract, multiply, divide - and negation, scaling, reciprocal, relu - are ONE correctly rounded scalar operation per
                                 // element ("the scalar operation applied to the operands' elements"): in the double
                                 // precision build, where library and reference hold the same operand values, every
                                 // finite element must be that value to the last bit (a quotient computed as
                                 // a * (1/b) is one unit off for most divisors and passes any tolerance)
-                                if !IS_F32 && matches!(self.op, OpKind::Add | OpKind::Sub | OpKind::Mul | OpKind::Div) {
+                                if !IS_F32 && matches!(self.op, OpKind::Add | OpKind::Sub | OpKind::Mul | OpKind::Div | OpKind::Neg | OpKind::Recip | OpKind::ScaleR(_) | OpKind::ScaleL(_) | OpKind::Relu) {
                                     let (gv, wv) = (a.values(), t.values());
                                     if let Some(i) = (0..wv.len()).find(|&i| wv[i].is_finite() && (gv[i] as f64) != wv[i]) {
                                         return Outcome::fail(
